@@ -1406,7 +1406,8 @@ def _rolling_max_or_min_1d(
     want_min = not want_max
 
     # Track rolling max/min and its position in circular buffers for each group
-    current_best = np.full(ngroups, -np.inf if want_max else np.inf)
+    # same dtype as the values: int64 timestamps must not pass through float64
+    current_best = np.full(ngroups, null_value)
     pos_of_current_best = np.zeros(ngroups, dtype=np.int64)
     group_buffers = np.full((ngroups, window), null_value)
     group_buffer_pos = np.zeros(ngroups, dtype=np.int64)
